@@ -249,6 +249,7 @@ def check(prop, tier, seed, a, workdir, t_start):
         unknown = []
         ok = 0
         canary_seen = canary_failed = False
+        extraction_break = False
         for p in r['props']:
             desc = p.get('description', '')
             if 'VERIF-CANARY' in desc:
@@ -257,12 +258,19 @@ def check(prop, tier, seed, a, workdir, t_start):
                 continue
             if p['status'] == 'SUCCESS':
                 ok += 1
+            elif p['status'] == 'FAILURE' and 'undefined function should be unreachable' in desc:
+                # the code under contract calls a function that has neither a body nor a contract in this unit (e.g. after a change
+                # that introduces a new callee): the unit no longer covers the code -- an extraction break, not a verdict
+                unknown.append('%s[%s]: call of %s, which has neither a body nor a contract in this unit' % (g.name, cfg, p.get('property', '?').split('.')[0]))
+                extraction_break = True
             elif p['status'] == 'FAILURE':
                 fails.append(p)
             else:
                 unknown.append('%s[%s]: obligation %s status %s' % (g.name, cfg, p.get('property'), p['status']))
-        if unknown and not fails:
+        if unknown and (not fails or extraction_break):
             undec += unknown[:5]
+        if extraction_break:
+            continue
         if r.get('finding_mode') == 'only':
             f = r['finding']
             if fails:
